@@ -296,10 +296,11 @@ public:
 };
 
 std::vector<PicTrack>
-read_track_offset_lut(DFS::FileAccess* f, unsigned int tracks)
+read_track_offset_lut(DFS::FileAccess* f, unsigned int track_list_offset, unsigned int tracks)
 {
+  // The header gives the position of the track list in units of 512 bytes.
   std::vector<PicTrack> result;
-  std::vector<unsigned char> buf = f->read(512, tracks * 4u);
+  std::vector<unsigned char> buf = f->read(512ul * track_list_offset, tracks * 4u);
   if (buf.size() != tracks * 4u)
     {
       std::ostringstream ss;
@@ -454,7 +455,8 @@ HfeFile::HfeFile(const std::string& name, bool compressed, std::unique_ptr<DFS::
 	  throw InvalidHfeFile(ss.str());
 	}
 
-      std::vector<PicTrack> track_lut = read_track_offset_lut(file_.get(), header_.number_of_track);
+      std::vector<PicTrack> track_lut = read_track_offset_lut(file_.get(), header_.track_list_offset,
+								 header_.number_of_track);
 
       for (unsigned int side = 0; side < header_.number_of_side; ++side)
 	{
